@@ -40,7 +40,20 @@ def _list_of_attrs(cls, e, fn_node) -> typing.Optional[typing.List[str]]:
     return None
 
 
-def ordered_loop(f):
+def ordered_loop(f, comprehensions: bool = False):
+    """comprehensions=True: an enumeration may also be a comprehension whose first generator walks the loader list, unfiltered"""
+    r = _ordered_for(f)
+    if r is None and comprehensions:
+        for comp in ast.walk(f.node):
+            if isinstance(comp, (ast.ListComp, ast.SetComp, ast.GeneratorExp)) and comp.generators and isinstance(comp.generators[0].target, ast.Name) \
+                    and not comp.generators[0].ifs:
+                names = _list_of_attrs(f.cls, comp.generators[0].iter, f.node)
+                if names:
+                    return comp, comp.generators[0].target.id, names
+    return r
+
+
+def _ordered_for(f):
     for lp in ast.walk(f.node):
         if not isinstance(lp, ast.For):
             continue
